@@ -709,6 +709,7 @@ class Prover:
         except Exception:
             r0 = "unknown"
         if r0 == "unsat":
+            self._cross_check(ab, oname)
             self.rec(oname, "unsat", time=round(time.time() - t0, 3), axioms=0, abstracted=True, reach=reach)
             return
         if r0 == "sat":
@@ -810,6 +811,38 @@ class Prover:
             except Exception:
                 continue
         return None
+
+    def _cross_check(self, assertions, oname, every=40):
+        """second solver: a sample of the (linear) abstracted queries that z3 found unsat is dumped
+        as SMT-LIB2 and decided again by the cvc5 binary; any disagreement is a harness error"""
+        self.cc_seen = getattr(self, "cc_seen", 0) + 1
+        if self.cc_seen > 2 and self.cc_seen % every:
+            return
+        import shutil
+
+        exe = shutil.which("cvc5")
+        if not exe:
+            return
+        try:
+            s = z3.Solver()
+            s.add(assertions)
+            txt = "(set-logic ALL)\n" + s.to_smt2()
+            with tempfile.NamedTemporaryFile("w", suffix=".smt2", delete=False) as fh:
+                fh.write(txt)
+                path = fh.name
+            try:
+                out = subprocess.run([exe, "--lang=smt2", "--tlimit=20000", path], capture_output=True, text=True, timeout=30).stdout
+            finally:
+                os.unlink(path)
+        except Exception:
+            return
+        ans = out.strip().splitlines()[0] if out.strip() else ""
+        if "(error" in out:
+            return  # the other solver could not parse the dump: no information
+        if ans == "unsat":
+            self.cross_checked = getattr(self, "cross_checked", 0) + 1
+        elif ans == "sat":
+            self.rec(oname + "/cross-check", "error", detail="cvc5 answers sat where z3 answered unsat on the same abstracted query")
 
     # ---- real-code replay -----------------------------------------------------------
     def _replay(self, sc, params, env, key, note):
@@ -927,5 +960,6 @@ class Prover:
             functions=sorted(self.functions),
             stubs=sorted(self.stubs),
             assumptions=sorted(self.assumptions),
+            cross_checked=getattr(self, "cross_checked", 0),
             hashes=dict(loader.HASHES),
         )
